@@ -5,6 +5,7 @@ package main
 // normalisation).
 
 import (
+	"go/types"
 	"fmt"
 	"go/token"
 	"strings"
@@ -17,6 +18,7 @@ type atom struct {
 	Const string
 	IsC   bool
 	Val   ssa.Value
+	Dec   bool // the decimal rendering of the integer Val (fmt's %d of an int: what strconv.Itoa gives)
 }
 
 func (a atom) String(w *World) string {
@@ -49,16 +51,55 @@ func strAtoms(v ssa.Value) []atom {
 		// strings.Join([]string{...}, "") is not used in this code base; fmt.Sprintf with only %s
 		if c := x.Common(); c.StaticCallee() != nil && c.StaticCallee().String() == "fmt.Sprintf" {
 			if f, ok := stringConst(c.Args[0]); ok {
-				parts := strings.Split(f, "%s")
+				// verbs %s (a string) and %d (an int, rendered as strconv.Itoa does); anything else is left opaque
+				var lits []string
+				var verbs []byte
+				cur, okF := "", true
+				for i := 0; i < len(f); i++ {
+					if f[i] != '%' {
+						cur += string(f[i])
+						continue
+					}
+					if i+1 >= len(f) || (f[i+1] != 's' && f[i+1] != 'd') {
+						okF = false
+						break
+					}
+					lits, verbs, cur = append(lits, cur), append(verbs, f[i+1]), ""
+					i++
+				}
+				lits = append(lits, cur)
 				elems := varargElems(c.Args[1])
-				if len(parts) == len(elems)+1 && !strings.Contains(strings.Join(parts, ""), "%") {
+				if okF && len(verbs) == len(elems) {
+					for i, vb := range verbs {
+						e := elems[i]
+						if mi, isMI := e.(*ssa.MakeInterface); isMI {
+							e = mi.X
+						}
+						bt, isB := e.Type().Underlying().(*types.Basic)
+						if vb == 's' && !(isB && bt.Info()&types.IsString != 0) {
+							okF = false
+						}
+						if vb == 'd' && !(isB && bt.Kind() == types.Int) {
+							okF = false
+						}
+					}
+				}
+				if okF && len(verbs) == len(elems) {
 					var out []atom
-					for i, p := range parts {
+					for i, p := range lits {
 						if p != "" {
 							out = append(out, atom{Const: p, IsC: true})
 						}
 						if i < len(elems) {
-							out = append(out, strAtoms(elems[i])...)
+							if verbs[i] == 'd' {
+								e := elems[i]
+								if mi, isMI := e.(*ssa.MakeInterface); isMI {
+									e = mi.X
+								}
+								out = append(out, atom{Val: e, Dec: true})
+							} else {
+								out = append(out, strAtoms(elems[i])...)
+							}
 						}
 					}
 					return out
